@@ -22,7 +22,8 @@ from vf.fakes3 import FakeS3Store, S3Env, client_error
 from vf.interpose import FaultPlan, Interposer, OpLog
 
 GRACE_MS = 3600000
-DAMAGE = ["missing", "empty", "truncated", "random", "json_wrong"]
+DAMAGE = ["missing", "empty", "truncated", "random", "json_wrong", "snapshot_manifest_list_null", "snapshot_manifest_list_empty",
+          "snapshot_manifest_list_missing_key"]
 
 
 def build(h: history.History, rng: random.Random) -> Dict[str, Any]:
@@ -283,6 +284,23 @@ class C07(Check):
                     new = raw[: max(1, len(raw) // 3)]
                 elif dmg == "random":
                     new = bytes(rng.getrandbits(8) for _ in range(64))
+                elif dmg.startswith("snapshot_manifest_list_"):
+                    # still valid JSON, but an OLDER retained snapshot no longer says where its manifest list is
+                    if not target.endswith(".metadata.json"):
+                        return
+                    doc = json.loads(raw)
+                    snaps = doc.get("snapshots") or []
+                    victim = next((s_ for s_ in snaps if s_.get("snapshot-id", s_.get("snapshot_id")) != doc.get("current-snapshot-id", doc.get("current_snapshot_id"))), None)
+                    if victim is None:
+                        return
+                    key = "manifest-list" if "manifest-list" in victim else "manifest_list"
+                    if dmg.endswith("_null"):
+                        victim[key] = None
+                    elif dmg.endswith("_empty"):
+                        victim[key] = ""
+                    else:
+                        victim.pop(key, None)
+                    new = json.dumps(doc).encode()
                 else:
                     new = b'{"unexpected": 1}'
                 self._write_raw(h, target, new)
